@@ -322,24 +322,20 @@ def tokenOf {ρ : Type} (mm : MMX) (o : Opts) (render : Path → Str) (roots : L
       | some s => if isTok mm.ws s then s else render p
       | Option.none => render p
 
-/-- preorder listing of the nodes of a forest with their paths -/
-def childPaths {ρ : Type} (mm : MMX) (p : Path) (n : SNode ρ) : List (Path × SNode ρ) :=
-  ((mm.feats n.cls).filter fun fi => fi.kind = .cont).flatMap fun fi =>
-    (kidsVia n fi.name).zipIdx.map fun (k, i) =>
-      ({ p with segs := p.segs ++ [(fi.name, if fi.many then some i else Option.none)] }, k)
-
-def preorder {ρ : Type} (mm : MMX) : Nat → List (Path × SNode ρ) → List (Path × SNode ρ)
-  | 0, _ => []
-  | fuel + 1, level => level ++ preorder mm fuel (level.flatMap fun (p, n) => childPaths mm p n)
-
-def sizeN {ρ : Type} : SNode ρ → Nat
-  | .mk _ _ _ _ kids => 1 + sizeL kids
-where sizeL : List (SNode ρ) → Nat
-  | [] => 0
-  | k :: t => sizeN k + sizeL t
+mutual
+/-- the nodes of a tree with their paths, in document order (an object is registered before its children) -/
+def nodesFrom {ρ : Type} (mm : MMX) (p : Path) : SNode ρ → List (Path × SNode ρ)
+  | .mk via cls uuid slots kids => (p, .mk via cls uuid slots kids) :: kidsFrom mm p cls [] kids
+def kidsFrom {ρ : Type} (mm : MMX) (p : Path) (pcls : Nat) (seen : List Str) : List (SNode ρ) → List (Path × SNode ρ)
+  | [] => []
+  | k :: t =>
+    nodesFrom mm { p with segs := p.segs ++
+        [(k.via, if ((mm.find pcls k.via).map (·.many)).getD true then some (seen.count k.via) else Option.none)] } k
+      ++ kidsFrom mm p pcls (k.via :: seen) t
+end
 
 def allNodes {ρ : Type} (mm : MMX) (roots : List (SNode ρ)) : List (Path × SNode ρ) :=
-  preorder mm (1 + (roots.map sizeN).sum) (roots.zipIdx.map fun (r, i) => (⟨i, []⟩, r))
+  roots.zipIdx.flatMap fun (r, i) => nodesFrom mm ⟨i, []⟩ r
 
 /-- `uuid_dict` after load: xmi:id values and id attribute values; a later registration overwrites an earlier one -/
 def idTable {ρ : Type} (mm : MMX) (o : Opts) (roots : List (SNode ρ)) : List (Str × Path) :=
